@@ -20,6 +20,12 @@ REQUIRED = ["DaeVerif.C03.Props." + n for n in (
     "unparsed_frames_not_routed", "ipv4_noninitial_fragment_passes", "idle_timeouts",
     "conn_state_layout", "handoff_layout", "lookup_key_layout", "retrieve_reads_the_stored_bytes",
     "dae_recognition", "group_health_bit",
+    # composition with C02 (route() over the installed bytes) and C01 (first matching rule): Compose.lean
+    "lan_new_tcp_connection_follows_userspace", "lan_new_tcp_connection_follows_first_match",
+    "lan_new_udp_flow_follows_first_match",
+    "wan_new_tcp_connection_follows_userspace", "wan_new_tcp_connection_follows_first_match",
+    "wan_new_udp_flow_follows_first_match",
+    "sticky_decision_installed_programs", "first_match_decision_is_sticky",
 )]
 
 GO_ANSWERED = ("connkey", "hoexp")
@@ -83,7 +89,11 @@ def run(ctx):
         "harness/c/c03_driver.c (bpf_skb_load_bytes fails iff offset+len > skb->len; bpf_skb_pull_data / socket lookups / socket "
         "cookie are oracles given per frame; bpf_redirect* recorded): the kernel's real sk_lookup, redirect_peer, verifier, per-CPU "
         "scratch races and map behaviour under concurrency are not modelled",
-        "route() is a parameter of the theorems; in the tie it is C02's routeK on the installed routing_map images (C02 ties it to the real route())",
+        "route() is a parameter `rt` of the per-frame/run theorems; Compose.lean instantiates it with rtOf = C02's routeK on the installed "
+        "routing_map / domain_routing_map byte images — the same definition c03drv executes, so this tie compares the real route() (called "
+        "from the real TC entry points) with the composed model directly; the userspace-matcher and first-match sides of the composition "
+        "(C02.Props.routeK_eq_userspace, kernel_eq_first_match_spec, C01.Props.match_is_first_match, imported and proved in the same lake "
+        "build) are tied to the Go code by C02's and C01's own checks, and H2 (installed domain bitmap = MatchDomainBitmap) by C10/C11",
         "shim headers harness/c/headers (UAPI struct layouts, little-endian host = bpfel target)",
         "translators/fakebpf (synthetic bpf2go declarations so that the production bpf_utils.go compiles)",
         "bpf(2) map create/update/lookup of the sandbox kernel (only used to let the REAL RetrieveRoutingResult read the bytes the TC programs wrote)",
@@ -98,7 +108,7 @@ def run(ctx):
         if seen_kinds[kind] <= 4:  # a handful of replays per kind of disagreement is enough
             pending.append((prio, len(pending), what, replay, key))
 
-    ctx.prove(["DaeVerif.C03.Props"], ["DaeVerif.C03.Props"], ["DaeVerif/C03/*.lean"], extra_targets=["c03drv"])
+    ctx.prove(["DaeVerif.C03.Props", "DaeVerif.C03.Compose"], ["DaeVerif.C03.Props"], ["DaeVerif/C03/*.lean"], extra_targets=["c03drv"])
     ctx.required_theorems(REQUIRED)
 
     # ---- native build of /repo's CURRENT tproxy.c (unmodified; #included by the driver)
